@@ -32,7 +32,7 @@ type C11Prior struct {
 }
 
 func GenC11() *rapid.Generator[C11Case] {
-	gg := genGenomeSpec(GenomeCfg{Modules: true, MinGenes: 1})
+	gg := genGenomeSpec(GenomeCfg{Modules: true, MinGenes: 1, Big: true})
 	return rapid.Custom(func(t *rapid.T) C11Case {
 		c := C11Case{G: gg.Draw(t, "genome")}
 		if rapid.IntRange(0, 2).Draw(t, "expressed before") == 0 {
